@@ -246,8 +246,19 @@ func (e *engine) unmarshal(b []byte) (reflect.Value, error) {
 
 func (e *engine) decode(b []byte, rk int, strict bool) (reflect.Value, error) {
 	out := reflect.New(e.typ)
-	d := thrift.NewDecoder(proto(e.c.P).NewReader(newReader(rk, b)))
-	d.SetStrict(strict)
+	var d *thrift.Decoder
+	if rk%2 == 1 {
+		// a reused Decoder: created on a stream of another protocol, configured, then Reset onto this
+		// input. Reset replaces the reader (and with it the protocol); the strictness option stays.
+		d = thrift.NewDecoder(proto(e.c.P + 1).NewReader(bytes.NewReader([]byte{0})))
+		d.SetStrict(strict)
+		var scratch struct{}
+		d.Decode(&scratch)
+		d.Reset(proto(e.c.P).NewReader(newReader(rk, b)))
+	} else {
+		d = thrift.NewDecoder(proto(e.c.P).NewReader(newReader(rk, b)))
+		d.SetStrict(strict)
+	}
 	err := d.Decode(out.Interface())
 	return out.Elem(), err
 }
